@@ -274,7 +274,7 @@ func runC16(seed int64, n int, dir string, tier string) *Report {
 			checkFilter(rep, nl, gotR, func(m *sbom.Node) bool { return roots[m.Id] }, "GetRootNodes", map[string]any{})
 		}
 		// purl type
-		pt := gen.Pick(g, []string{"npm", "golang", "none"})
+		pt := gen.Pick(g, []string{"npm", "golang", "none", "go", "git", "gen", "n", "", "github", "generic"})
 		gotP := clone(nl).GetNodesByPurlType(pt)
 		add(nl, "(QPurlType "+coqfmt.Str(pt)+")", "(AList "+coqfmt.NodeList(gotP)+")", map[string]any{"query": "GetNodesByPurlType", "purl_type": pt})
 		rep.OracleEvals++
